@@ -24,7 +24,7 @@ def _once(rep, seen, key, ok, rule, cons, why, **kw):
 
 def check(model, rep):
     from checks.solver_common import absorb_arith, TIME_ARITH, EULER_ARITH, KIN_ARITH, TORQUE_ARITH
-    absorb_arith(model, rep, 'C11.dep.arith', TIME_ARITH)
+    absorb_arith(model, rep, 'C11.dep.arith', TIME_ARITH, solver_log=True)
     # exactly round(T/dt) instants: the stepping loop may only end early through the stop condition (C16's placement rules)
     from sa.core import Report
     from checks.c16 import check_place
